@@ -756,9 +756,15 @@ func main() {
 					run.Drop("child-killed-from-outside:" + res.Signal)
 				default:
 					pub := hex.EncodeToString(cs.pubKey().SerializeCompressed())
-					run.Violate(cs.Idx, "plotting-process-died", map[string]string{"class": "process-death", "bl": strconv.Itoa(cs.BL)}, map[string]interface{}{
-						"pubkey_hex": pub, "priv_scalar_hex": cs.PrivHex, "bl": cs.BL, "cfg": cs.Cfg, "window_bytes_pass_a": cs.CapA, "window_bytes_pass_b": cs.CapB,
-						"exit_code": res.ExitCode, "signal": res.Signal, "fatal": fatal})
+					if fr := vh.DyingFrames(out); len(fr) > 0 && vh.CodeUnderTestFrame(fr) == "" {
+						// the process died in a goroutine without a frame of the code under test: a harness fault, never a verdict
+						run.Drop("child died in harness code")
+						run.Inconclusive("a child process died in harness code: " + fr[0])
+					} else {
+						run.Violate(cs.Idx, "plotting-process-died", map[string]string{"class": "process-death", "bl": strconv.Itoa(cs.BL)}, map[string]interface{}{
+							"pubkey_hex": pub, "priv_scalar_hex": cs.PrivHex, "bl": cs.BL, "cfg": cs.Cfg, "window_bytes_pass_a": cs.CapA, "window_bytes_pass_b": cs.CapB,
+							"exit_code": res.ExitCode, "signal": res.Signal, "fatal": fatal})
+					}
 				}
 				run.Case(cs.hash(), false)
 			} else if len(rest) == len(todo) {
